@@ -491,6 +491,8 @@ type simWorld struct {
 	withDNS   bool
 	steps     int
 	maxSteps  int
+	// softBudget: the scenario checks steps against maxSteps itself and stops early
+	softBudget bool
 
 	// oracle hooks (nil = unused)
 	onWire         func(from *simNode, d *simDatagram) // every datagram a node emits
@@ -506,7 +508,7 @@ type simWorld struct {
 }
 
 func newSimWorld(rc *sk.RunCtx) *simWorld {
-	return &simWorld{rc: rc, tp: rc.Tape, t0: time.Now(), partition: map[[2]int]bool{}, blocked: map[[2]int]bool{}, pending: map[int][]*simDatagram{}, maxSteps: 20000}
+	return &simWorld{rc: rc, tp: rc.Tape, t0: time.Now(), partition: map[[2]int]bool{}, blocked: map[[2]int]bool{}, pending: map[int][]*simDatagram{}, maxSteps: 400000}
 }
 
 func (w *simWorld) at(d time.Duration, name string, run func()) {
@@ -773,6 +775,10 @@ func (w *simWorld) step(horizon time.Duration) bool {
 	}
 	w.steps++
 	if w.steps > w.maxSteps {
+		if !w.softBudget {
+			// never let the clock silently stop under an oracle that depends on it
+			w.rc.HarnessError("event budget of %d simulator events exhausted at t=%v", w.maxSteps, w.now)
+		}
 		return false
 	}
 	ev := heap.Pop(&w.q).(*simEvent)
